@@ -933,7 +933,7 @@ fn check_sig(template_name: &str, tpl: &str, hole_start: usize, name: &str, f: &
     let real = real_sig_key(f.sig(), subst, fired);
     if !nosig {
         let tsig = template_sig_key(sig_text)?;
-        if tsig != real {
+        if simplify_key(&tsig) != simplify_key(&real) {
             return bail(format!(
                 "signature drift for {rel} :: {container} :: {name}\n  template: {tsig}\n  source:   {real}"
             ));
@@ -971,6 +971,26 @@ fn process_template(ctx: &mut Ctx, name: &str, tpl: &str) -> R<String> {
     let mut pos = 0;
     loop {
         // next directive: `//@item` line or `{@body`
+        // `//@expect <file> :: "text"`: the source must still contain this text (guards hand-written stand-ins)
+        if let Some(i) = tpl[pos..].find("//@expect") {
+            let sp = pos + i;
+            let first_other = ["{@body", "//@item", "//@sig"].iter().filter_map(|k| tpl[pos..].find(k).map(|j| pos + j)).min();
+            if first_other.map_or(true, |o| sp < o) {
+                let eol = tpl[sp..].find('\n').map_or(tpl.len(), |i| sp + i);
+                let line = tpl[sp + "//@expect".len()..eol].trim();
+                let (rel, q) = line.split_once("::").ok_or_else(|| Bail(format!("{name}: bad @expect `{line}`")))?;
+                let (want, _) = parse_quoted(q)?;
+                let src = ctx.load(rel.trim())?;
+                let squash = |s: &str| s.split_whitespace().collect::<Vec<_>>().join(" ");
+                if !squash(&src.text).contains(&squash(&want)) {
+                    return bail(format!("lost anchor: {} no longer contains `{want}`", rel.trim()));
+                }
+                ctx.record.push(json!({"kind":"expect","file":rel.trim(),"text":want,"template":name}));
+                out.push_str(&tpl[pos..eol]);
+                pos = eol;
+                continue;
+            }
+        }
         // `//@sig` lines: signature-only check for bodiless trait methods (text is left in place)
         let nb = tpl[pos..].find("{@body").map(|i| pos + i);
         let ns = tpl[pos..].find("//@sig").map(|i| pos + i);
